@@ -3,3 +3,4 @@ import UvModel.Timer
 import UvModel.Props.C04Heap
 import UvModel.Props.C20
 import UvModel.Props.C04Timer
+import UvModel.Props.C12
